@@ -46,13 +46,14 @@ type writerPlan struct {
 	CSVCols    int // bit 0: count, 1: definition, 2: the "sample" attribute, 3: quality
 	Recs       []Rec
 	LongSeq    bool
-	ToFile     int // 0: simulated endpoint; 1: the ...ToFile entry point on a new file; 2: on a file left by a longer run; 3: on a shorter one; 4: longer one, append mode
-	Giant      int // >0: one batch formats to more than Giant bytes (a block larger than any buffer of the output stack)
+	SkipEmpty  bool // OptionsSkipEmptySequence: zero-length sequences are left out (with a warning), the others written
+	ToFile     int  // 0: simulated endpoint; 1: the ...ToFile entry point on a new file; 2: on a file left by a longer run; 3: on a shorter one; 4: longer one, append mode
+	Giant      int  // >0: one batch formats to more than Giant bytes (a block larger than any buffer of the output stack)
 }
 
 func (p writerPlan) sample() map[string]any {
 	return map[string]any{"writer": wkNames[p.Kind], "batches": p.N, "sizes": p.Sizes, "arrival": permString(p.Arrival),
-		"workers": p.Workers, "compressed": p.Compressed, "dont_close": p.DontClose, "csv_auto": p.CSVAuto, "csv_columns": p.CSVCols, "records": len(p.Recs), "giant_batch_bytes": p.Giant, "to_file": p.ToFile}
+		"workers": p.Workers, "compressed": p.Compressed, "dont_close": p.DontClose, "csv_auto": p.CSVAuto, "csv_columns": p.CSVCols, "records": len(p.Recs), "giant_batch_bytes": p.Giant, "to_file": p.ToFile, "skip_empty": p.SkipEmpty}
 }
 
 var sizeTable = []int{1, 0, 2, 3}
@@ -125,6 +126,24 @@ func drawWriterPlan(t *simrt.Tape, maxN int, big bool) writerPlan {
 		for i := range p.Recs {
 			if t.Choose(3) == 2 {
 				p.Recs[i].Def = []string{`he said "x", twice`, "a,b", `"`, " leading space", "semi;colon"}[t.Choose(5)]
+			}
+		}
+	}
+	if (p.Kind == wkFasta || p.Kind == wkFastq || p.Kind == wkAuto) && !p.LongSeq && t.Choose(6) == 5 {
+		// zero-length sequences anywhere in their batch, and the option that skips them
+		p.SkipEmpty = true
+		for i := range p.Recs {
+			if t.Choose(3) == 2 {
+				p.Recs[i].Seq = ""
+				if p.Recs[i].Qual != nil {
+					p.Recs[i].Qual = []byte{}
+				}
+			}
+		}
+		if p.Kind == wkAuto && len(p.Recs) > 0 && p.Recs[0].Seq == "" {
+			p.Recs[0].Seq = "acgt" // WriteSequence looks at the first record to choose the format
+			if p.Recs[0].Qual != nil {
+				p.Recs[0].Qual = []byte{30, 30, 30, 30}
 			}
 		}
 	}
@@ -244,6 +263,9 @@ func writerOptions(p writerPlan) []obiformats.WithOption {
 	if p.CSVAuto {
 		o = append(o, obiformats.CSVAutoColumn(true))
 	}
+	if p.SkipEmpty {
+		o = append(o, obiformats.OptionsSkipEmptySequence(true))
+	}
 	if p.CSVCols != 0 {
 		o = append(o, obiformats.CSVCount(p.CSVCols&1 != 0), obiformats.CSVDefinition(p.CSVCols&2 != 0), obiformats.CSVQuality(p.CSVCols&8 != 0))
 		if p.CSVCols&4 != 0 {
@@ -330,9 +352,9 @@ func expectedText(p writerPlan) []byte {
 	for _, b := range batches {
 		switch p.Kind {
 		case wkFasta, wkAuto:
-			buf.Write(obiformats.FormatFastaBatch(b, obiformats.FormatFastSeqJsonHeader, false).Bytes())
+			buf.Write(obiformats.FormatFastaBatch(b, obiformats.FormatFastSeqJsonHeader, p.SkipEmpty).Bytes())
 		case wkFastq:
-			buf.Write(obiformats.FormatFastqBatch(b, obiformats.FormatFastSeqJsonHeader, false).Bytes())
+			buf.Write(obiformats.FormatFastqBatch(b, obiformats.FormatFastSeqJsonHeader, p.SkipEmpty).Bytes())
 		}
 	}
 	return buf.Bytes()
@@ -389,10 +411,20 @@ func checkWriterOutput(rc *RunCtx, prop string, p writerPlan, raw []byte) {
 			return
 		}
 	}
+	full := p // every record, for what the formatter under test makes of each batch
+	if p.SkipEmpty {
+		var kept []Rec
+		for _, r := range p.Recs {
+			if r.Seq != "" {
+				kept = append(kept, r)
+			}
+		}
+		p.Recs = kept
+	}
 	ids := idsOf(p.Recs)
 	switch p.Kind {
 	case wkChunk, wkFasta, wkFastq, wkAuto:
-		exp := expectedText(p)
+		exp := expectedText(full)
 		if !bytes.Equal(text, exp) {
 			rc.Violate(prop+"/"+kind+"/bytes-differ"+arrivalShape(p),
 				"output (%d bytes) is not the in-order concatenation of the batches (%d bytes); arrival %s sizes %v\n got: %q\n want: %q",
